@@ -103,21 +103,29 @@ theorem class_preserve (g : TStr → TStr) (hg : Reflects g) : InvPreserving (pr
 theorem class_pieces (g : TStr → List TStr) (hg : SubPieces g) : InvPreserving (piecesF g) := piecesF_inv hg
 /-- class `forward`: every `Safe` leaf of the result is a `Safe` leaf of an argument -/
 theorem class_forward (g : Fn) (hg : Forwards g) : InvPreserving g := forwards_inv hg
+/-- class `select`: every string leaf of the result, text and bit, is a leaf of an argument -/
+theorem class_select (g : Fn) (hg : Selects g) : InvPreserving g := forwards_inv (selects_forwards hg)
 /-- class `normal`: the result has no `Safe` leaf -/
 theorem class_normal (g : Fn) (hg : NormalOut g) : InvPreserving g := normalOut_inv hg
 /-- class `mapped`: `map(filter)` of an invariant-preserving filter -/
 theorem class_mapped (g : Fn) (hg : InvPreserving g) : InvPreserving (mapF g) := mapF_inv hg
 
-/-- every filter and global function registered by `minijinja` and `minijinja-contrib` (names
-    regenerated from `defaults.rs` / contrib `lib.rs`) has a class -/
+/-- every filter and global function registered by `minijinja` and `minijinja-contrib` and every
+    pycompat method (names regenerated from `defaults.rs`, contrib `lib.rs`, `pycompat.rs`) has a class -/
 theorem all_registered_names_classified :
-    ∀ n ∈ Gen.builtinFilterNames ++ Gen.contribFilterNames ++ Gen.globalFunctionNames,
-      (classOf n).isSome = true := by decide
+    ∀ n ∈ Gen.builtinFilterNames ++ Gen.contribFilterNames ++ Gen.globalFunctionNames ++ Gen.pycompatMethodNames,
+      (classOf n).isSome = true := by decide +kernel
 
-/-- every program point of the two crates that constructs a `Safe` string (list regenerated from
-    the sources) is accounted for in the model -/
+/-- every program point of the two crates that constructs a `Safe` string or calls
+    `preserve_safety` (file, function and number of occurrences regenerated from the sources) is
+    accounted for in the model — a new call site breaks this theorem before any oracle case exists -/
 theorem all_safe_producers_modelled :
     ∀ s ∈ Gen.safeProducerSites, s ∈ modelledSafeSites.map (·.1) := by decide
+
+/-- every program point that *reads* the `Safe` bit (`is_safe()`, patterns on `StringType::Safe`),
+    with its number of reads, is accounted for — a new reader is a new way to forward the bit -/
+theorem all_safe_bit_readers_modelled :
+    ∀ s ∈ Gen.safeBitReaderSites, s ∈ modelledReaderSites.map (·.1) := by decide
 
 /-! ## programs (stage "programs": the theorem is stated over template programs)
 
